@@ -1,10 +1,10 @@
 package rules
 
 import (
-	"sort"
 	"fmt"
 	"go/token"
 	"go/types"
+	"sort"
 	"strings"
 
 	"golang.org/x/tools/go/ssa"
@@ -291,27 +291,39 @@ func c15Siblings(c *eng.Ctx, r *eng.Report) {
 func c15Generator(c *eng.Ctx, r *eng.Report) {
 	const rule = "R15.3"
 	r.Min(rule, 1)
-	fn := c.Func(logicalPkg, "(*groupSignGenerator).addWitnessForce")
-	if !r.Anchor(fn != nil, rule, "(*groupSignGenerator).addWitnessForce") {
-		return
-	}
-	ok := false
-	for _, b := range fn.Blocks {
-		for _, in := range b.Instrs {
-			mu, isMU := in.(*ssa.MapUpdate)
-			if !isMU {
-				continue
-			}
-			for _, cd := range eng.CondsAt(mu) {
-				if ex, isE := cd.V.(*ssa.Extract); isE && ex.Index == 1 && !cd.True {
-					if lk, isL := ex.Tuple.(*ssa.Lookup); isL && lk.CommaOk && lk.Index == mu.Key {
-						ok = true
+	// wherever a share enters the recovery set (addWitnessForce today; the rule follows the insertion, not the name)
+	for _, fn := range c.PkgFuncs(logicalPkg) {
+		if c.IsTestFunc(fn) {
+			continue
+		}
+		n := 0
+		for _, b := range fn.Blocks {
+			for _, in := range b.Instrs {
+				mu, isMU := in.(*ssa.MapUpdate)
+				if !isMU {
+					continue
+				}
+				if t, f := eng.FieldOf(eng.Unwrap(mu.Map)); !strings.HasSuffix(t, "groupSignGenerator") || f != "witnessSignMap" {
+					continue
+				}
+				ok := false
+				for _, cd := range eng.CondsAt(mu) {
+					if ex, isE := cd.V.(*ssa.Extract); isE && ex.Index == 1 && !cd.True {
+						if lk, isL := ex.Tuple.(*ssa.Lookup); isL && lk.CommaOk && lk.Index == mu.Key {
+							ok = true
+						}
 					}
 				}
+				name := strings.TrimPrefix(eng.FuncName(fn), "(*consensus/logical.groupSignGenerator).")
+				key := name + ":duplicate-refused"
+				if n > 0 {
+					key = fmt.Sprintf("%s#%d", key, n)
+				}
+				n++
+				r.Check(ok, rule, key, c.Pos(mu.Pos()), "a share is inserted only when no share of that member is present", "a second share of the same member can overwrite/increase the recovery set")
 			}
 		}
 	}
-	r.Check(ok, rule, "addWitnessForce:duplicate-refused", c.Pos(fn.Pos()), "a share is inserted only when no share of that member is present", "a second share of the same member can overwrite/increase the recovery set")
 }
 
 func c15Round2(c *eng.Ctx, r *eng.Report) {
@@ -324,6 +336,39 @@ func c15Round2(c *eng.Ctx, r *eng.Report) {
 	}
 	// checkSignature returns nil only after both VerifySig calls returned true
 	vs := callsNamed(cs, "consensus/groupsig.VerifySig")
+	data := map[*ssa.Call]ssa.Value{}
+	for _, v := range vs {
+		data[v] = v.Call.Args[1]
+	}
+	// a private wrapper that does nothing but return VerifySig of its own parameters is that call
+	for _, s := range eng.Sites(cs) {
+		h := s.Static()
+		call, isCall := s.Instr.(*ssa.Call)
+		if h == nil || !isCall || h.Pkg != cs.Pkg || h.Blocks == nil || token.IsExported(h.Name()) {
+			continue
+		}
+		inner := callsNamed(h, "consensus/groupsig.VerifySig")
+		rets := eng.Returns(h)
+		if len(inner) != 1 || len(rets) != 1 || len(rets[0].Ret.Results) != 1 || rets[0].Ret.Results[0] != ssa.Value(inner[0]) {
+			continue
+		}
+		mapped := 0
+		var dataArg ssa.Value
+		for ai := 0; ai < 2; ai++ {
+			for pi, q := range h.Params {
+				if inner[0].Call.Args[ai] == ssa.Value(q) && pi < len(call.Call.Args) {
+					mapped++
+					if ai == 1 {
+						dataArg = call.Call.Args[pi]
+					}
+				}
+			}
+		}
+		if mapped == 2 {
+			vs = append(vs, call)
+			data[call] = dataArg
+		}
+	}
 	ok := len(vs) == 2
 	if ok {
 		for _, re := range eng.Returns(cs) {
@@ -342,7 +387,7 @@ func c15Round2(c *eng.Ctx, r *eng.Report) {
 				ok = false
 			}
 		}
-		d0 := eng.Desc(vs[0].Call.Args[1]) + "|" + eng.Desc(vs[1].Call.Args[1])
+		d0 := eng.Desc(data[vs[0]]) + "|" + eng.Desc(data[vs[1]])
 		if !(strings.Contains(d0, ".Hash") && strings.Contains(d0, ".preBH.Random")) {
 			ok = false
 		}
